@@ -175,6 +175,30 @@ Definition upload_session (src : bytes) (filesize : Z) (offset : option N) (gran
   upload_core filesize offset
     (match offset with Some o => chop_all grant (if upload_seek then dropN o src else src) | None => [] end) cut peer_closes.
 
+(* ---- the failure notification of the uploader ----------------------------------------------
+   After a write error the uploader marks the upload FAILED and THEN tells the peer (PeerUploadFailed
+   over the message connection).  That send can itself fail with ConnectionWriteError (which the handler
+   does not catch: the task ends with it) or take arbitrarily long.  [msg_ok = false]: it raises or hangs.
+   Were the notification sent before the state change (ul_fail_before_notify = false) the upload would be
+   left UPLOADING with a dead or blocked task. *)
+Definition upload_session_msg (src : bytes) (filesize : Z) (offset : option N) (grant : N)
+           (cut : option Z) (peer_closes msg_ok : bool) : ures :=
+  let u := upload_session src filesize offset grant cut peer_closes in
+  if u_failmsg u && negb msg_ok && negb ul_fail_before_notify
+  then mkU (u_wire u) UWedged (u_bt u) true else u.
+
+(* ---- one negotiation per download at a time --------------------------------------------------
+   _on_peer_transfer_request starts _initialize_download only when no negotiation task of the transfer
+   is pending (a second request can arrive before the first task has moved the transfer to INITIALIZING).
+   Two attempts at once are two writers appending to one file: *)
+Definition second_request_starts_task (task_pending : bool) : bool := negb (dl_guard_pending_task && task_pending).
+
+(* what two concurrent honest attempts from the same offset leave when the first wrote k bytes and the
+   second the whole remainder before the first continued *)
+Definition two_writers (src local : bytes) (k : N) : bytes :=
+  let rest := dropN (Z.to_N (len local)) src in
+  local ++ takeN k rest ++ rest ++ dropN k rest.
+
 (* ---- how the uploader reads the offset (receive_transfer_offset) ----------------------------
    [segs]: the bytes the downloader wrote on the file connection, as the TCP segments in which they
    arrive, before it closes.  readexactly(width) waits until width bytes are there (None: the
@@ -351,18 +375,20 @@ Definition bad_d (cs : list dcase) : list (list Z) :=
                      chain bs base id (slices_with bs base l0) ss 0) cs.
 
 (* upload case: id, src (seed, n), filesize, offset, grant, cut, peer closes, expected (state, wire, bt, failmsg) *)
-(* upload case: ..., offset, position at which the 8 offset bytes are split into two segments (0: one), ... *)
-Definition ucase := (Z * (Z * Z) * Z * option Z * Z * Z * option Z * bool * (Z * spz * Z * bool))%type.
+(* upload case: ..., offset, position at which the 8 offset bytes are split into two segments (0: one),
+   whether the failure notification can be sent, ... *)
+Definition ucase := (Z * (Z * Z) * Z * option Z * Z * bool * Z * option Z * bool * (Z * spz * Z * bool))%type.
 Definition bad_u (cs : list ucase) : list (list Z) :=
   flat_map (fun c =>
-    let '(id, bs, fsz, off, osp, grant, cut, pc, (st, wsp, bt, fm)) := c in
+    let '(id, bs, fsz, off, osp, mok, grant, cut, pc, (st, wsp, bt, fm)) := c in
     let base := pat (Z.to_N (fst bs)) (Z.to_N (snd bs)) in
-    let u := match off with
+    let u0 := match off with
              | None => upload_session base fsz None (Z.to_N grant) cut pc
              | Some o => upload_session_wire base fsz
                            (let w := le 8 (Z.to_N o) in if Z.eqb osp 0 then [w] else split_at (Z.to_N osp) w)
                            (Z.to_N grant) cut pc
              end in
+    let u := if u_failmsg u0 && negb mok && negb ul_fail_before_notify then mkU (u_wire u0) UWedged (u_bt u0) true else u0 in
     if Z.eqb (ucode (u_state u)) st && beq (u_wire u) (slice_with bs base wsp) && Z.eqb (u_bt u) bt && Bool.eqb (u_failmsg u) fm
     then [] else [[id; ucode (u_state u); u_bt u; len (u_wire u)]]) cs.
 
